@@ -4,6 +4,7 @@
 From Coq Require Import ZArith QArith Qabs List Bool.
 From Bignums Require Import BigZ.
 From Dadi Require Import Base.Num Base.NumQ Base.NumD Model.DFast Model.Equilibrium Model.Coalescent.
+From Dadi Require Model.Tridiag Model.Scheme Model.NDSweep.
 Import ListNotations.
 
 Definition z2D := map ZZ2D.
@@ -40,6 +41,21 @@ Definition hist_check (c : hist_case) : Z * Z :=
   let o := hist_oracle c in
   (Dppb (Dmaxrel Dtiny o (z2D (hc_fs3 c))), Dppb (Dmaxrel Dtiny o (z2D (hc_fs4 c)))).
 
+(** ** the same with a mutation rate that changes from epoch to epoch: epoch = (is_exponential, nu_recent, nu_old, T, theta),
+    most recent first; [ht_thA] is the theta of the ancestral (infinite) epoch of relative size 1. *)
+Record hist_th_case := { ht_n : nat; ht_eps : list (bool * Q * Q * Q * Q); ht_thA : Q; ht_fs3 : list (Z * Z); ht_fs4 : list (Z * Z) }.
+Definition to_epoch_th (e : bool * Q * Q * Q * Q) : D * @epoch D := (Q2D (snd e), to_epoch (fst e)).
+Definition hist_th_oracle (c : hist_th_case) : list D :=
+  @coal_sfs_all_th D NumDF (@quad_geom D NumDF 24 2) (map to_epoch_th (ht_eps c)) (mkD 1 0) (Q2D (ht_thA c)) (ht_n c).
+Definition hist_th_check (c : hist_th_case) : Z * Z :=
+  let o := hist_th_oracle c in
+  (Dppb (Dmaxrel Dtiny o (z2D (ht_fs3 c))), Dppb (Dmaxrel Dtiny o (z2D (ht_fs4 c)))).
+(** cross-check of the two oracles where they must coincide (all thetas equal): max rel. difference in units of 1e-9 *)
+Definition hist_th_uniform_gap (n : nat) (eps : list (bool * Q * Q * Q)) (theta : Q) : Z :=
+  let a := @coal_sfs_all D NumDF (@quad_geom D NumDF 24 2) (Q2D theta) (map to_epoch eps) (mkD 1 0) n in
+  let b := hist_th_oracle {| ht_n := n; ht_eps := map (fun e => (e, theta)) eps; ht_thA := theta; ht_fs3 := []; ht_fs4 := [] |} in
+  Dppb (Dmaxrel Dtiny a b).
+
 (** ** spectra against the closed-form selection equilibrium (effective coefficient g, scale theta) *)
 Record sel_case := { sc_n : nat; sc_theta : Q; sc_g : Q; sc_terms : nat; sc_fs3 : list (Z * Z); sc_fs4 : list (Z * Z) }.
 Definition sel_oracle (c : sel_case) : list D :=
@@ -47,3 +63,31 @@ Definition sel_oracle (c : sel_case) : list D :=
 Definition sel_check (c : sel_case) : Z * Z :=
   let o := sel_oracle c in
   (Dppb (Dmaxrel Dtiny o (z2D (sc_fs3 c))), Dppb (Dmaxrel Dtiny o (z2D (sc_fs4 c)))).
+
+(** ** Integration.one_pop with every argument of its signature against the drivers of Model/NDSweep.v STARTED AT TIME t0
+    (= initial_t): each of nu, gamma, h, beta, theta0 is  value + slope * t  (absolute time t; slope 0 for numbers and
+    constant functions), [o1_tdep] = at least one argument is a function (the time-dependent driver: time step from the
+    parameters at the current time, the step itself with the parameters at the next time), [o1_frozen] = frozen=True
+    (no mutation influx, no sweep).  Run on the NumD instance, compared entrywise relative to the largest entry. *)
+Record onepop_case := { o1_n : nat; o1_grid : list Q; o1_par : list (Q * Q) (* nu, gamma, h, beta, theta0 *);
+                        o1_frozen : bool; o1_tdep : bool; o1_tf : Q; o1_t0 : Q; o1_T : Q;
+                        o1_phi : list (Z * Z); o1_impl : list (Z * Z) }.
+Definition o1_at (c : onepop_case) (k : nat) (t : D) : D :=
+  let p := nth k (o1_par c) (0, 0)%Q in Dadd (Q2D (fst p)) (Dmul (Q2D (snd p)) t).
+Definition o1_pop (c : onepop_case) (t : D) : @NDSweep.pop D :=
+  {| NDSweep.p_nu := o1_at c 0 t; NDSweep.p_gamma := o1_at c 1 t; NDSweep.p_h := o1_at c 2 t; NDSweep.p_beta := o1_at c 3 t;
+     NDSweep.p_ms := []; NDSweep.p_frozen := o1_frozen c; NDSweep.p_nomut := false |}.
+Definition onepop_model (c : onepop_case) : option (list D) :=
+  let grids := [map Q2D (o1_grid c)] in
+  let t0 := Q2D (o1_t0 c) in
+  if o1_tdep c then
+    @NDSweep.integrate_tdep D NumD 5000 [o1_n c] grids (fun t => [o1_pop c t]) (fun t => o1_at c 4 t) (Q2D (o1_tf c)) false
+                            t0 (Q2D (o1_T c)) (z2D (o1_phi c))
+  else
+    @NDSweep.integrate_const D NumD 5000 [o1_n c] grids [o1_pop c t0] (o1_at c 4 t0) (Q2D (o1_tf c)) false
+                             t0 (Q2D (o1_T c)) (z2D (o1_phi c)).
+Definition onepop_check (tol : Q) (c : onepop_case) : bool * Z :=
+  match onepop_model c with
+  | Some m => Dlists_close tol m (z2D (o1_impl c))
+  | None => (false, 1%Z)
+  end.
